@@ -93,7 +93,7 @@ def run_batch(job):
         shutil.rmtree(d, ignore_errors=True)
 
 
-def random_batch(rnd, bid, n, big):
+def random_batch(rnd, bid, n, big, tiny_only=False):
     seq = {f"n{k}": "".join(rnd.choice("ACGT") for _ in range(rnd.randint(150, 400) if big else rnd.randint(5, 40))) for k in range(1, 5)}
     names = list(seq)
     links = [(a, ao, b, bo) for a in names for b in names for ao in "+-" for bo in "+-"]
@@ -105,7 +105,35 @@ def random_batch(rnd, bid, n, big):
         pe = rnd.randint(max(ps + 1, 3 * len(p) // 4), len(p))
         ref = p[ps:pe]
         ops, read, j = [], [], 0
-        style = rnd.choice(["subs", "indels", "sv", "clean"])
+        style = rnd.choice(["subs", "indels", "sv", "clean"]) if big or (k % 3 and not tiny_only) else "tiny"
+        if style == "tiny":
+            # unrelated short read and path slice with an arbitrary VALID input alignment (random monotone lattice path):
+            # the optimal alignment may have no '=' column at all although the input CIGAR has some
+            pe = min(len(p), ps + rnd.randint(1, 4))
+            ref = p[ps:pe]
+            rd = "".join(rnd.choice("ACGT") for _ in range(rnd.randint(1, 4)))
+            best = None
+            for _try in range(4):  # of four random valid alignments keep the one claiming most matches
+                i = j = 0
+                ops = []
+                while i < len(rd) or j < len(ref):
+                    moves = (["M"] if i < len(rd) and j < len(ref) else []) + (["I"] if i < len(rd) else []) + (["D"] if j < len(ref) else [])
+                    m = rnd.choice(moves)
+                    if m == "M":
+                        ops.append("=" if rd[i] == ref[j] else "X")
+                        i += 1
+                        j += 1
+                    elif m == "I":
+                        ops.append("I")
+                        i += 1
+                    else:
+                        ops.append("D")
+                        j += 1
+                if best is None or ops.count("=") > best.count("="):
+                    best = ops
+            ops = best
+            recs.append({"id": f"q{k}", "walk": walk, "ps": ps, "pe": pe, "read": rd, "ops": ops, "frag": rnd.choice([0, 1])})
+            continue
         svpos = sorted(rnd.sample(range(len(ref)), 2)) if style == "sv" and len(ref) > 300 else []
         while j < len(ref):
             x = rnd.random()
@@ -162,6 +190,8 @@ def run(ctx):
     nb = 40 if ctx.thorough else 6
     for b in range(nb):
         jobs.append(random_batch(rnd, f"R{b}", 60, big=(b % 2 == 0)))
+    for b in range(8 if ctx.thorough else 2):
+        jobs.append(random_batch(rnd, f"T{b}", 300, big=False, tiny_only=True))
     # the 60,000-base boundary: 60,001 aligned read bases are written back unchanged, 60,000 and 59,999 are realigned
     big = "".join(rnd.choice("ACGT") for _ in range(60010))
     jobs.append(("L", {"b1": big, "b2": "ACGTAC"}, [("b1", "+", "b2", "+")],
